@@ -840,7 +840,8 @@ def sanitize(cases):
 def run(ck, replay):
     ck.cov["trusted_base"] += [
         "fsmdrv (harness/go/main/zz_verif_fsm_test.go): drives the real FSM.Apply/Snapshot/Persist/Restore with real LevelDB stores and a real output stream; start-up sequence of main() re-enacted by the driver (irclog re-opened, tmp-outputstream deleted)",
-        "state equality is observed through IRCServer.Marshal (canonicalised, sha256) - completeness of Marshal is property C03; RPL_CREATED (003) text masked in batch digests (ServerCreation is per-process wall clock)",
+        "state equality is observed three ways: canonicalised IRCServer.Marshal bytes, the independent field dump of internal/ircserver (harness/go/ircserver/zz_verif_export.go VerifDump: every field of sessions/nick index/channels/holds/config, read by reflection) and behaviour (the tail of every log is applied on the restored node and its reply batches compared with the plain replay's); serialized states (lastSnapshotState, snapshot state message) are judged by what they MEAN when loaded (Unmarshal onto a fresh server, then dump)",
+        "projections: RPL_CREATED (003) text masked in batch digests (ServerCreation is per-process wall clock); recipient sets restricted to sessions {id,0} that exist after the entry in the plain replay (a services link that quit stays in serverSessions until the next save+load: DESIGN D13 / IRCFORMAT E1); Config.WhitelistedOrigins (absent from snapshot.proto, C03's open finding) is only generated once `open: property=C02 sig=c02:field:G.wo` is listed",
         "hashicorp/raft's contract (Apply in log order on one goroutine; Restore(latest) then exactly the later entries; Persist reads only indexes <= last) is an assumption of the model, not checked",
         "LevelDB (goleveldb) as an ordered key/value store with consistent iterators",
         "the IRC state machine is a black box: the model instance is the digest machine (state = list of applied entries); the hypotheses roundtrip (C03) / exp_frame / exp_init of the abstract theorems are assumptions about it (exp_init checked by source scan)"]
@@ -930,6 +931,15 @@ def run(ck, replay):
         dist["file_sink_cases"] += 1 if c["sink"] == "F" else 0
         p = c.get("meta", {}).get("pattern", "corpus")
         dist["patterns"][p] = dist["patterns"].get(p, 0) + 1
+        meta = c.get("meta", {})
+        if meta.get("kind") == "rich":
+            rf = dist.setdefault("rich", {"cases": 0, "with_services_link": 0, "caplogin_at_end": 0, "pending_shapes": {}, "entries": 0})
+            rf["cases"] += 1
+            rf["entries"] += len(c["entries"])
+            rf["with_services_link"] += 1 if meta.get("link") else 0
+            rf["caplogin_at_end"] += 1 if meta.get("caplogin") else 0
+            for sh in meta.get("pending", []):
+                rf["pending_shapes"][sh] = rf["pending_shapes"].get(sh, 0) + 1
 
     # ---- correspondence: which model variant does the implementation match?
     def model_lines(variant, cs, queries=None):
@@ -946,6 +956,8 @@ def run(ck, replay):
         for i, c in enumerate(cases):
             if subset is not None and i not in subset:
                 continue
+            if i in monfail:
+                continue        # the monitor already has a property violation for this case; its trace is not a witness for the tie
             mm, nd = compare(c, parsed[i], ml[i] if i < len(ml) else None)
             if mm:
                 mism[i] = mm
@@ -978,7 +990,8 @@ def run(ck, replay):
     mism, mlines = results[best]
     ck.notes["impl_matches_model_variant"] = {"variant(fix_d3,fix_d15)": best, "mismatching_cases": len(mism),
                                               "tried": {v: len(results[v][0]) for v in results},
-                                              "note": "variants after the first are judged on at most 40 of the cases the first one mismatches"}
+                                              "cases_compared": len(cases) - len(monfail),
+                                              "note": "cases with a monitor failure are not used for the correspondence; variants after the first are judged on at most 40 of the cases the first one mismatches"}
     if ck.tier == "thorough" and not replay:
         sample = [case_line(c, best) for c in cases[:60]]
         nvm, vmok = vm_lines(sample, mlines[:len(sample)])
@@ -990,7 +1003,10 @@ def run(ck, replay):
     ck.cov["distinct_nontrivial"] = len(nontriv)
     ck.cov["disagreements_checked"] = len(cases)
     ck.cov["traces_validated_against_impl"] = len(cases)
-    ck.cov["rule"] = ("logs of 10-60 entries (15% raft-internal gaps, CreateSession/NICK/USER/JOIN/PRIVMSG/PART/TOPIC/PING/AWAY/MODE/"
+    ck.cov["rule"] = ("40% small hand-rolled logs, 60% histories of irclib.Gen (operators, services link with pseudo-clients, +i/+k/+x/+b channels with bans by "
+                      "host and robust/0x<id>, invitations, join captchas, SVSHOLD, AWAY, GLINE, Config with CaptchaRequiredForLogin and sessions that stop "
+                      "after NICK / USER / NICK+USER / PASS with a wrong, replayed or good captcha), every log ending in a behavioural tail (each surviving "
+                      "session acts once more) that is applied after a Snapshot + Restart. Small logs: logs of 10-60 entries (15% raft-internal gaps, CreateSession/NICK/USER/JOIN/PRIVMSG/PART/TOPIC/PING/AWAY/MODE/"
                       "DeleteSession/Config with SessionExpiration 0s..1h, 4% pre-marked messages of death), timestamp patterns allold/allnew/"
                       "mixed/nonmono/boundary(+-1ns around t-(exp+10s)); schedules mixing Apply / Snapshot(ok|fail, t far future, far past, "
                       "10-minute window, boundary) / Restore / Restart; 20% JSON encoding, 12% FileSnapshotStore; 4% of the cases may restart "
